@@ -69,6 +69,16 @@ func genAll(P *Program, only string) ([]*VC, []string) {
 	sort.Strings(keys)
 	for _, k := range keys {
 		fc := P.contracts.Funcs[k]
+		if strings.Contains(k, "@") {
+			// call-site specific contract: used where that caller calls it
+			base := k[:strings.LastIndex(k, "@")]
+			if P.funcs[base] == nil {
+				errs = append(errs, fmt.Sprintf("contract %s (%s:%d) names a function that does not exist", k, fc.File, fc.Line))
+			} else if fc.Opts["assumed"] != "" {
+				P.assumed = append(P.assumed, k)
+			}
+			continue
+		}
 		fn := P.funcs[k]
 		if fn == nil {
 			errs = append(errs, fmt.Sprintf("contract %s (%s:%d) names a function that does not exist", k, fc.File, fc.Line))
